@@ -37,7 +37,9 @@ class RaisingFrame:
 def main():
     cols = {k: np.asarray(v, dtype=float) for k, v in spec["columns"].items()}
     if "patch" in cols:
-        cols["patch"] = np.asarray(spec["columns"]["patch"], dtype=np.int64)
+        # (a patch column with a missing value arrives as floats — what pandas / Parquet make of a nullable integer column)
+        pvals = [float("nan") if v is None else v for v in spec["columns"]["patch"]]
+        cols["patch"] = np.asarray(pvals, dtype=np.float64 if any(isinstance(v, float) for v in pvals) else np.int64)
     kw = dict(ra_name=spec.get("ra_name", "ra"), dec_name="dec", degrees=False, chunksize=spec["chunksize"],
               overwrite=spec.get("overwrite", False))
     if "w" in cols:
